@@ -63,7 +63,7 @@ func Harness_C35_pool_and_proposer() {
 	var onChain []common.Uint256
 	steps := param("steps")
 	for st := 0; st < steps; st++ {
-		switch nondetRange("op", 3) {
+		switch nondetRange("op", 4) {
 		case 0: // a transaction is submitted (it was verified against the chain at the current height)
 			who := nondetRange("sender", param("senders"))
 			nonce := uint32(nondetRange("nonce", param("maxnonce")+1))
@@ -114,8 +114,50 @@ func Harness_C35_pool_and_proposer() {
 			c35Chain = expect
 			iv.AddBlock(&types.Block{Header: &types.Header{Height: height}, Transactions: block})
 			pool.CleanCompletedTransactionList(block, height)
+		case 2: // another node's proposal is validated the way processProposalMsg does, then committed
+			validHeight := height
+			ctx := map[common.Address]uint64{}
+			n := 1 + nondetRange("foreign.ntx", param("foreignmax"))
+			var block []*types.Transaction
+			accepted := true
+			for i := 0; i < n; i++ {
+				tx := &types.Transaction{TxType: types.EIP155, Payer: c35Senders[nondetRange("foreign.sender", param("senders"))],
+					Nonce: uint32(nondetRange("foreign.nonce", param("maxnonce")+2)), GasPrice: uint64(nondetRange("foreign.gasprice", 2)) * 100}
+				if iv.Verify(tx, validHeight, ctx) != nil {
+					accepted = false
+					break
+				}
+				block = append(block, tx)
+			}
+			if !accepted {
+				continue // the proposal is refused, nothing is committed
+			}
+			expect := c35Chain
+			for i, tx := range block {
+				for j := 0; j < i; j++ {
+					assert(block[j].Hash() != tx.Hash(), "validated-block-no-duplicate-hash")
+				}
+				for _, h := range onChain {
+					assert(h != tx.Hash(), "validated-block-no-transaction-already-on-chain")
+				}
+				w := c35Who(tx.Payer)
+				assert(uint64(tx.Nonce) == expect[w], "validated-block-consecutive-nonces-from-the-account-nonce")
+				expect[w] = uint64(tx.Nonce) + 1
+			}
+			height++
+			for _, tx := range block {
+				onChain = append(onChain, tx.Hash())
+			}
+			c35Chain = expect
+			iv.AddBlock(&types.Block{Header: &types.Header{Height: height}, Transactions: block})
+			pool.CleanCompletedTransactionList(block, height)
 		default: // time passes without this node proposing; the minimum gas price may rise
-			height += uint32(nondetRange("idle", 3))
+			// (heights only advance with blocks, and the consensus service feeds every sealed block to the
+			// incremental validator: idle time is a run of empty blocks sealed by other nodes)
+			for k := nondetRange("idle", 3); k > 0; k-- {
+				height++
+				iv.AddBlock(&types.Block{Header: &types.Header{Height: height}})
+			}
 			if nondetBool("raise-min-gas") {
 				pool.RemoveTxsBelowGasPrice(uint64(nondetU8("mingas")) * 100)
 			}
